@@ -113,7 +113,7 @@ static void allOps(const MonG& X, const MonG& Y, const MonT& t, const MonT& s, c
 
 static void makeOperands(Prng& r, MonG& X, MonG& Y, MonT& t, MonT& s, typename MonG::Vector& p, std::string& label) {
   const ref::Group& g = RG();
-  GenOpt o; o.thetaMax = PI - 1e-3; o.nearPiMin = 1e-3; o.linMax = 1e3;
+  GenOpt o; o.thetaMax = PI - 1e-3; o.nearPiMin = 1e-3; o.linMax = 1e3; o.exactCoeff = 0.03;
   std::string l2;
   X = groupFrom<MonG>(genElement<MonS>(g, r, o, label));
   t = tangentFrom<MonT>(genTangent<MonS>(g, r, o, l2)); s = tangentFrom<MonT>(genTangent<MonS>(g, r, o, l2));
